@@ -1,16 +1,41 @@
 """C07 - namespaces and includes reach other templates with the right context and URI.
 
-corr  : template *sets* (2..8 templates in directory trees of depth 0..3, connected by <%namespace file/module>,
-        <%include>, <%inherit> and the get_namespace/get_template/include_file API with relative and absolute
-        URIs, inline-def namespaces, import lists and '*', include args overlapping context names), served from
-        files (1-3 directories), from put_string, or both, are rendered by the real mako and by the Lean model
-        (Namespace/Model.lean); compared: the output (or the exception class) and, for every _lookup_template
-        call, (kind of tag, relativeto, raw URI, adjusted URI, found?) as recorded by wrapping the lookup's
-        adjust_uri/get_template.  Op-level: _kwargs_for_include, Namespace.__getattr__ on chains, _get_star,
-        adjust_uri.
-oracle: (no Lean) scenario families whose expected output is computed from the generator's ground truth by the
-        rule in the property text: URI resolution trees, unresolvable URIs, lookup/import precedence,
-        include independence and argument sourcing, module namespaces with a real module on sys.path.
+regen : group NsFlow (tools/regen_nsflow.py -> Generated/NsFlow.lean): the shape of the two import branches of
+        codegen.write_variable_declares (plain / strict_undefined: _import_ns before the context) and of the two
+        call sites of runtime._include_file (both run the target with the cleaned context); Props/C07 pins them
+        with the obligations codegen_import_first_obligation / include_call_sites_obligation.
+corr  : corr.render - template *sets* (2..8 templates in directory trees of depth 0..3, some sharing a base name in
+        different directories, connected by <%namespace file/module>, <%include>, <%inherit> and the
+        get_namespace/get_template/include_file API with relative and absolute URIs, inline-def namespaces,
+        import lists and '*', include args overlapping context names, named blocks), served from files (1-3
+        directories, with shadowed duplicates), from put_string, or both, with strict_undefined on/off and
+        include_error_handler set/unset (a handler that answers false), are rendered by the real mako and by the
+        Lean model (Namespace/Model.lean, driver op `ns render`); compared: the output (or the exception class)
+        and, for every _lookup_template call, (kind of construct found from the calling frames, relativeto, raw
+        URI, adjusted URI, found?) as recorded by wrapping the lookup's adjust_uri/get_template.
+        Op-level: corr.kwargs_for_include (_kwargs_for_include on association lists vs a real signature),
+        corr.ns_getattr (Namespace/TemplateNamespace/ModuleNamespace.__getattr__ on inherits chains of 1..4 real
+        objects), corr.get_star (_get_star of the top object), corr.adjust_uri (incl. the empty URI).
+oracle: (no Lean) families whose demanded output is computed from the generator's ground truth by the rule in the
+        property text:
+        oracle.adversarial   fixed witnesses of the recorded findings and of their neighbours (defs named like
+                             Namespace attributes, URIs differing only in non-word characters, body()/blocks
+                             through tag and get_namespace, inline defs x import= order, '*' vs inline def, local in
+                             inline defs at every inheritance level, dotted URIs x put_string/files, unresolvable
+                             and empty URIs from all six constructs);
+        oracle.same_relative 2..4 callers in different directories, reached in one render, writing the same relative
+                             string through get_namespace/get_template/include_file/<%include>/<%namespace file>;
+        oracle.uri_tree      random reference trees (7 kinds of reference x body/def/inline-def placement x
+                             inheritance), shrunk by dropping references;
+        oracle.unresolvable  a reached reference of a tree replaced by a missing or empty URI;
+        oracle.precedence    n.k() and k() for every name over inline defs / file or real-module members / inherited
+                             defs / own defs / import list,'*',none / context, strict_undefined on/off; inheritable
+                             namespaces reached as self.n from derived templates of depth 1..3;
+        oracle.include       7 includer situations x page-argument sourcing x inheriting target x
+                             include_error_handler set/unset, with a probe of self/local/parent/next.
+        One violation per site and run; every violation carries the whole set (`repro`) and what is demanded.
+replay: re-renders the recorded set; oracle cases are judged against the recorded demand, correspondence cases
+        against the model.
 """
 from __future__ import annotations
 
@@ -23,24 +48,32 @@ import tempfile
 
 from harness.common import enc, dec
 
-RULE = ("template sets: n in 2..8 templates at canonical URIs of directory depth 0..3; references only point to "
-        "higher-numbered templates (no cycles); each reference is written absolute, relative to the directory of the "
-        "template it is written in (with ../ as needed), or with redundant ./ and // segments; backing = put_string | "
-        "files in 1-3 directories (with shadowed duplicates) | both; namespaces: file/module/plain x inline defs x "
-        "import list/'*'/none x inheritable; bodies, defs and inline defs made of identity tags, unqualified names, "
-        "calls through namespaces/self/local/parent/next, includes (tag and API) with args overlapping context names, "
-        "get_namespace/get_template, probes of self/local/parent/next, named blocks; a case is non-trivial when at "
-        "least one _lookup_template call happened; distinct = distinct (sources, context, backing)")
+RULE = ("corr.render: template sets of n in 2..8 templates at canonical URIs of directory depth 0..3, about a third of "
+        "them sharing a base name (h.html, k.html) in different directories; references only point to higher-numbered "
+        "templates (no cycles); each reference is written absolute, relative to the directory of the template it is "
+        "written in (with ../ as needed; mostly avoided under put_string), or with redundant ./, // and seg/../ "
+        "segments, 2.5% unresolvable or empty; backing = put_string | files in 1-3 directories (with shadowed and "
+        "shadowing duplicates) | both; strict_undefined on in 25%, include_error_handler set in 35% of the sets; "
+        "namespaces: file/module/plain x inline defs x import list/'*'/none x inheritable; page arguments with and "
+        "without defaults; bodies, defs, inline defs and named blocks made of identity tags, unqualified names (called "
+        "or printed), calls through namespaces/self/local/parent/next, includes (tag and API) with args overlapping "
+        "context names, get_namespace/get_template, probes of self/local/parent/next; 2..6 context variables. A "
+        "case is non-trivial when at least one _lookup_template call happened; distinct = distinct (sources, context, "
+        "entry). Op-level streams: random association lists / chains of 1..4 namespace objects / URI x relativeto "
+        "pairs. Oracle families: see the module docstring; their sizes are printed per run")
 ASSUMPTIONS = [
-    "identifiers are ASCII, pairwise distinct within a template across defs / namespaces / page arguments, and none is a Python builtin or one of self/local/parent/next/caller/capture/pageargs/context",
+    "identifiers are ASCII, pairwise distinct within a template across defs / namespaces / page arguments, and none is a Python builtin (except `next`, whose builtin fallback is modelled) or one of self/local/parent/caller/capture/pageargs/context",
     "inherit/namespace/include URIs are string literals (the tags accept ${} expressions; their evaluation is C02/C04's subject)",
     "__import__ of a module namespace succeeds (module written by the harness to a directory on sys.path)",
     "defs take no arguments (argument passing to defs is C05's subject); page arguments take string-literal defaults",
-    "output order inside one render is the write order (buffering/caller stacks are C05/C13's subject)",
+    "output order inside one render is the write order; blocks and defs are unbuffered (buffering/caller stacks are C05/C13's subject)",
+    "the include_error_handler answers false (the error propagates); what a handler that swallows the error leaves behind is C13's subject",
+    "a printed function/namespace object (address-dependent text) is compared as the marker <<repr>> only",
 ]
 TRUSTED_EXTRA = [
-    "C07: posixpath.join/dirname/normpath as modelled in Path/Model.lean (compared with CPython by C09)",
-    "C07: the harness' printer from template descriptions to Mako source and its wire encoder",
+    "C07: posixpath.join/dirname/normpath and adjust_uri as modelled in Path/Model.lean (compared with CPython by C09, adjust_uri also here)",
+    "C07: the harness' printer from template descriptions to Mako source and its wire encoder; the classification of a _lookup_template call by the names of the calling frames",
+    "C07: tools/regen_nsflow.py (reads mako/codegen.py and mako/runtime.py with ast)",
 ]
 
 FUEL = 4000
